@@ -64,6 +64,13 @@ def c15_events() -> List[Dict[str, Any]]:
                 fn(b)
             except Exception:  # noqa
                 pass
+    # ... and the library is used for other things (a board is dealt, played)
+    try:
+        h = Hands.generate_random_hands()
+        h.to_pbn()
+        Hands.convert_binary(h.to_binary())
+    except Exception:  # noqa
+        pass
     return first + c15_pass('o')
 
 
@@ -390,6 +397,28 @@ def c14_job(job) -> List[Dict[str, Any]]:
             sh = {k: r.sample(v, len(v)) for k, v in jb['j'].items()}
             R.add('deal.from_json', {'lists': [sh[k] for k in ('N', 'E', 'S', 'W')]},
                   lambda: {'out': project_hands(hands_parser(sh))})
+        # a hand attribute re-assigned on the object (a hand hidden / swapped),
+        # then encoded: every encoder must show the new hands
+        if r.random() < 0.3 and any(dl):
+            h3 = make_hands(dl)
+            s1, s2 = r.sample(range(4), 2)
+            names = ['north', 'east', 'south', 'west']
+            new_dl = [list(x) for x in dl]
+            new_dl[s1], new_dl[s2] = new_dl[s2], (new_dl[s1] if r.random() < 0.5 else [])
+            try:
+                setattr(h3, names[s1], {card(c) for c in new_dl[s1]})
+                setattr(h3, names[s2], {card(c) for c in new_dl[s2]})
+            except Exception:  # noqa
+                new_dl = None
+            if new_dl is not None:
+                R.add('deal.to_binary', {'deal': new_dl, 'kind': 'tuple-after-reassign'},
+                      lambda: (lambda b: {'out': [list(map(int, b[p])) for p in Player], 'type_ok': True})(h3.to_binary()))
+                R.add('deal.to_json', {'deal': new_dl},
+                      lambda: (lambda j: {'out': [list(j[k]) for k in ('N', 'E', 'S', 'W')]})(convert_deal(h3)))
+                if all(len(x) in (0, 13) for x in new_dl):
+                    f3 = r.randrange(4)
+                    R.add('deal.to_pbn', {'deal': new_dl, 'first': f3},
+                          lambda: {'out': h3.to_pbn(Player(f3 + 1))})
         # equality
         other = make_hands(dl)
         R.add('deal.eq', {'a': dl, 'b': dl}, lambda: {'out': bool(hb == other)})
@@ -579,6 +608,42 @@ def c19_message_events(tier: str, r) -> List[Dict[str, Any]]:
                         return {'out': MessageInterface.parse_bid(m, SEATS[s]).idx}
                     R.add('msg.parse_bid', {'seat': s, 'call': c, 'base': base,
                                             'variant': vn, 'alert': al, 'sent': msg}, parse)
+    # alerted calls through the table manager itself: what Server.bidding_phase
+    # relays to the other three seats must be understood by their parser
+    from bridge_env import Vul as _Vul
+    auctions = [[(0, ''), (36, ' Alert.'), (37, ' ALERT.'), (35, ' alert. '), (35, ''), (35, '')],
+                [(35, ' alert.'), (4, ' Alert. '), (35, ''), (35, '  aLeRt.'), (35, '')],
+                [(7, ' ALERT.'), (36, ''), (35, ' Alert.'), (35, ''), (8, ' alert.'), (35, ''), (35, ''), (35, '')]]
+    for ai, auc in enumerate(auctions):
+        for dealer in range(4):
+            srv = Server('127.0.0.1', 0, pathlib.Path('unused.json'))
+            seat = dealer
+            sent_msgs = []
+            for (c, al) in auc:
+                base = Client.create_bid_message(Bid.int_to_bid(c), SEATS[seat])
+                txt = [base, base.lower(), base.upper()][(ai + seat) % 3] + al
+                srv.received_message_queues[Player(seat + 1)].put(txt)
+                sent_msgs.append((seat, c, base, txt))
+                seat = (seat + 1) % 4
+            ok = True
+            try:
+                srv.bidding_phase(Player(dealer + 1), _Vul.NONE)
+            except Exception:  # noqa
+                ok = False
+            # every other seat's queue: names of the seats to call and the relays
+            for listener in range(4):
+                q = srv.sent_message_queues[Player(listener + 1)]
+                items = []
+                while not q.empty():
+                    items.append(q.get_nowait())
+                relays = [m for m in items if isinstance(m, str) and
+                          any(w in m.lower() for w in (' bids ', ' passes', ' doubles', ' redoubles'))]
+                expected = [(st, c, base, txt) for (st, c, base, txt) in sent_msgs if st != listener]
+                for k2, (st, c, base, txt) in enumerate(expected):
+                    got = relays[k2] if ok and k2 < len(relays) else '<missing>'
+                    R.add('msg.parse_bid', {'seat': st, 'call': c, 'base': base, 'variant': 'relayed',
+                                            'alert': 'via-server', 'sent': got},
+                          lambda: {'out': MessageInterface.parse_bid(got, SEATS[st]).idx})
     # cards: both notations x case variants
     for s in range(4):
         for c in range(52):
